@@ -11,7 +11,7 @@ PROPS = {
         "rule": "documents from G-corpus prefix closure, clauses, hostile Unicode, mutations, fixtures, long/nesting families and "
                 "grammar-generated files, through all 29 front-ends (x wrappers, x rule configurations x dialects), each run under a "
                 "crash monitor (catch_unwind + process-death observation), a CPU-time hang monitor and (thorough) instruction-count "
-                "scaling; non-trivial = document that yields >= 1 token; distinct = hash(front-end, token-kind sequence)",
+                "scaling; hostile documents in every language id are also sent to real harper-ls sessions, which must answer each one (no answer / death / > 60 s CPU decided on the server's CPU time); non-trivial = document that yields >= 1 token; distinct = hash(front-end, token-kind sequence)",
         "assumptions": ["release semantics (overflow checks off) decide; debug-only arithmetic panics are notes",
                         "hangs are judged on CPU time of the case in isolation, never wall time",
                         "nesting families are bounded (quick 400, thorough 2000 levels)"],
@@ -39,7 +39,8 @@ PROPS = {
         "steps": [("hv", "C04", {}), ("py", "lsx", "run_c04")],
         "rule": "files generated from per-front-end grammars with ground truth (prose / non-prose / URL / ignore-marked / optional segments); "
                 "oracle = interval arithmetic over the segments: every prose word is a Word token at its exact span, no lintable token "
-                "intersects non-prose, planted misspellings are flagged at their offset; non-trivial = prose word located after a multi-byte "
+                "intersects non-prose, planted misspellings are flagged at their offset; the same files go to real harper-ls sessions under their language id (planted misspellings published "
+                "exactly at their characters, no spelling diagnostic inside a non-prose segment); non-trivial = prose word located after a multi-byte "
                 "character in a file with non-prose segments; distinct = hash(front-end, constructs used, #words, #segments)",
         "assumptions": ["templates were validated on the pinned tree; comment blocks adjacent to an ignore-marked comment, Typst strings, "
                         "JSDoc tags are 'don't care'"],
@@ -106,7 +107,8 @@ PROPS = {
         "steps": [("hv", "C11", {"_scale": 4.0}), ("py", "lsx", "run_c11")],
         "rule": "(A) configuration algebra on random {on, off, unset, null, unknown-key} assignments: overlay law through fill_with_curated / merge_from / set_rule_enabled_if_unset, merge "
                 "order, JSON round trip; (B) documents of 2-3 rule sentences: lints of every single rule computed once, then random configurations compared with the multiset sum of "
-                "the enabled singles, random 2-partitions, rule attribution through hook H1 (nothing disabled runs), unknown keys, and the JS-facing overlay path; "
+                "the enabled singles, random 2-partitions, rule attribution through hook H1 (nothing disabled runs), unknown keys, and the JS-facing overlay path; (C) harper-ls: documents under a random dialect and `linters` map must be published with exactly the library's lints for "
+                "that configuration; "
                 "non-trivial = document on which >= 2 rules fire; distinct = hash(document, enabled set)",
         "assumptions": ["multiset comparison (no order across rules is promised)"],
     },
